@@ -1,5 +1,6 @@
 import DaskModel.Lemmas.StorePlan
 import DaskModel.Lemmas.SetItemPlan
+import DaskModel.Lemmas.StoreND
 /-!
 # C29 — storing arrays writes exactly the array into the targets (theorems)
 
@@ -124,6 +125,31 @@ theorem store_writes_disjoint (N : Nat) {a : PSlice} {a0 st : Int} {astop : Opti
 /-- non-vacuity: chunks (2, 3) stored into `target[1:11:2]` of a length-12 target -/
 example : storePlan 12 (some ⟨some 1, some 11, some 2⟩) [2, 3] = some [[1, 3], [5, 7, 9]] := by decide
 example : optNormalize ⟨some 1, some 11, some 2⟩ = some (1, some 11, 2) := by decide
+
+/-! ## N-d: every position of `target[region]` is written by exactly one block -/
+
+/-- **N-d cover**: block `b` (coordinates in the `slices_from_chunks` grid, `blocks_mem`) writes the target position
+    `t` iff on every axis `t_k` lies in the piece `P_k[l0:l1]` of its block `b_k` (`store_region_den`; NumPy writes the
+    per-axis product). The positions written by some block are exactly `target[region][: source.shape]`, axis by axis. -/
+theorem store_nd_cover (Ps : List (List Int)) (chunks : List (List Nat)) (t : List Int) :
+    InRegion Ps chunks t ↔ ∃ b, BlockWrites Ps chunks b t :=
+  blockWrites_cover Ps chunks t
+
+/-- **N-d exactly once**: for normalisable positive-step regions no target position is written by two different
+    blocks — so the stored values do not depend on the order in which the blocks are written (scheduler, lock). -/
+theorem store_nd_exactly_once (axes : List (Nat × PSlice)) (Ps : List (List Int)) (h : RegionAxes axes Ps)
+    (chunks : List (List Nat)) (t : List Int) (hin : InRegion Ps chunks t) :
+    ∃ b, BlockWrites Ps chunks b t ∧ ∀ b', BlockWrites Ps chunks b' t → b' = b := by
+  obtain ⟨b, hb⟩ := (blockWrites_cover Ps chunks t).mp hin
+  exact ⟨b, hb, fun b' hb' => blockWrites_unique Ps (regionAxes_nodup axes Ps h) chunks b' b t hb' hb⟩
+
+/-- non-vacuity: a 2-d store of chunks ((2,3),(1,1)) into `target[1:11:2, 0:2]` of a (12, 2) target: position (5, 1)
+    is written by block (1, 1) -/
+example : RegionAxes [(12, ⟨some 1, some 11, some 2⟩), (2, ⟨some 0, some 2, none⟩)] [[1, 3, 5, 7, 9], [0, 1]] :=
+  ⟨⟨1, some 11, 2, by decide, by decide, by decide⟩, ⟨0, some 2, 1, by decide, by decide, by decide⟩, trivial⟩
+example : BlockWrites [[1, 3, 5, 7, 9], [0, 1]] [[2, 3], [1, 1]] [1, 1] [5, 1] :=
+  ⟨⟨(2, 5), by decide, by decide⟩, ⟨(1, 2), by decide, by decide⟩, trivial⟩
+example : InRegion [[1, 3, 5, 7, 9], [0, 1]] [[2, 3], [1, 1]] [5, 1] := ⟨by decide, by decide, trivial⟩
 
 /-! ## npy stacks -/
 
